@@ -1,11 +1,363 @@
 import GoguVerif.Go.Run
-/-! Driver wiring for C13 (stub — to be filled in). -/
+import GoguVerif.Spec.C13
+import GoguVerif.Model.C13
+/-!
+# Driver wiring for C13
+
+Kind `c13` is stateless: every protocol line is one call.  For each line the model's answer is
+rendered (correspondence) and the specification clause is decided on the implementation's own answer
+(monitor).  See `harness/k_c13_test.go` for the line formats.
+-/
 namespace GoguVerif.Kinds.C13
 open GoguVerif
+open GoguVerif.Spec.C13 (Out check)
+
+/-- `p3` ↦ 3 (any one-letter prefix) -/
+def famIdx (v : Val) : Option Nat :=
+  match v with
+  | .atom s => (s.drop 1).toNat?
+  | _ => none
+
+def pair? : Val → Option (Int × Int)
+  | .list [.int a, .int b] => some (a, b)
+  | _ => none
+
+def pairs? : Val → Option (List (Int × Int))
+  | .list l => l.mapM pair?
+  | _ => none
+
+def maps? : Val → Option (List (List (Int × Int)))
+  | .list l => l.mapM pairs?
+  | _ => none
+
+def renderOutInt : Out Int → List Val
+  | .ok v => [.atom "ok", .int v]
+  | .err => [.atom "err"]
+  | .panic => [.atom "panic"]
+  | .hang => [.atom "hang"]
+
+/-- a plain result: the value itself, or `panic` -/
+def renderPlainInt : Out Int → List Val
+  | .ok v => [.int v]
+  | .err => [.atom "err"]
+  | .panic => [.atom "panic"]
+  | .hang => [.atom "hang"]
+
+def renderOutList : Out (List Int) → List Val
+  | .ok l => [.atom "ok", Val.ofInts l]
+  | .err => [.atom "err"]
+  | .panic => [.atom "panic"]
+  | .hang => [.atom "hang"]
+
+def parseOutInt : List Val → Option (Out Int)
+  | [.atom "ok", .int v] => some (.ok v)
+  | [.atom "err"] => some .err
+  | [.atom "panic"] => some .panic
+  | [.atom "hang"] => some .hang
+  | _ => none
+
+def parsePlainOutInt : List Val → Option (Out Int)
+  | [.int v] => some (.ok v)
+  | [.atom "panic"] => some .panic
+  | [.atom "hang"] => some .hang
+  | _ => none
+
+def parseOutList : List Val → Option (Out (List Int))
+  | [.atom "ok", l] => l.ints?.map .ok
+  | [.atom "err"] => some .err
+  | [.atom "panic"] => some .panic
+  | [.atom "hang"] => some .hang
+  | _ => none
+
+def parseErrVal : List Val → Option (Bool × Int)
+  | [.atom "ok", .int v] => some (false, v)
+  | [.atom "err", .int v] => some (true, v)
+  | _ => none
+
+/-- the 256 int8 values in order -/
+def int8s : List Int := (List.range 256).map (fun (n : Nat) => (n : Int) - 128)
+
+/-- number of elements of `s` satisfying `p` -/
+def countP (p : Int → Bool) (s : List Int) : Nat := (s.filter p).length
+
+/-- some key value is shared by two elements -/
+def hasTie (f : Int → Int) (s : List Int) : Bool :=
+  let ks := s.map f
+  ks.eraseDups.length < ks.length
+
+structure Verdict where
+  model : List Val
+  /-- `some true` accepted, `some false` clause violated, `none` the implementation's answer has a shape
+  the clause cannot judge (`panic`/`hang` are then violations, anything else a malformed line) -/
+  ok : Option Bool
+  clause : String
+  tags : List String := []
+  nontrivial : Bool := false
+
+def finish (l : Line) (v : Verdict) : Step Unit :=
+  let spec : Option String :=
+    match v.ok with
+    | some true => none
+    | some false => some v.clause
+    | none =>
+      match l.res with
+      | [.atom "panic"] => some s!"no-panic:{l.op}"
+      | [.atom "hang"] => some s!"terminates:{l.op}"
+      | _ => none
+  let bad : Option String :=
+    match v.ok, spec with
+    | none, none => some s!"c13: unexpected result shape for {l.op}"
+    | _, _ => none
+  { st := (), model := some v.model, spec := spec, bad := bad, tags := l.op :: v.tags, nontrivial := v.nontrivial }
+
+def intRes? : List Val → Option Int
+  | [.int r] => some r
+  | _ => none
+
+def boolRes? : List Val → Option Bool
+  | [v] => v.bool?
+  | _ => none
+
+def stepCore (l : Line) : Step Unit :=
+  let badLine : Step Unit := { st := (), bad := some s!"c13: bad line {l.op}" }
+  match l.op, l.args with
+  | "indexof", [s, .int v] =>
+    match s.ints? with
+    | none => badLine
+    | some s =>
+      finish l { model := [.int (Model.C13.IndexOf s v)], ok := (intRes? l.res).map fun r => check (Spec.C13.IndexOf s v r)
+                 clause := "indexof:smallest-matching-index", nontrivial := countP (· == v) s ≥ 2
+                 tags := if s.contains v then [] else ["search:absent"] }
+  | "lastindexof", [s, .int v] =>
+    match s.ints? with
+    | none => badLine
+    | some s =>
+      finish l { model := renderPlainInt (Model.C13.LastIndexOf s v), ok := (intRes? l.res).map fun r => check (Spec.C13.LastIndexOf s v r)
+                 clause := "lastindexof:largest-matching-index", nontrivial := countP (· == v) s ≥ 2 }
+  | "contains", [s, .int v] =>
+    match s.ints? with
+    | none => badLine
+    | some s =>
+      finish l { model := [Val.ofBool (Model.C13.Contains s v)], ok := (boolRes? l.res).map fun r => check (Spec.C13.Contains s v r)
+                 clause := "contains:membership", nontrivial := s.length ≥ 2 }
+  | "findindex", [s, p] =>
+    match s.ints?, famIdx p with
+    | some s, some k =>
+      let p := Spec.C13.pred k
+      finish l { model := [.int (Model.C13.FindIndex s p)], ok := (intRes? l.res).map fun r => check (Spec.C13.FirstIdx p s r)
+                 clause := "findindex:smallest-matching-index", nontrivial := countP p s ≥ 2 }
+    | _, _ => badLine
+  | "findlastindex", [s, p] =>
+    match s.ints?, famIdx p with
+    | some s, some k =>
+      let p := Spec.C13.pred k
+      finish l { model := renderPlainInt (Model.C13.FindLastIndex s p), ok := (intRes? l.res).map fun r => check (Spec.C13.LastIdx p s r)
+                 clause := "findlastindex:largest-matching-index", nontrivial := countP p s ≥ 2 }
+    | _, _ => badLine
+  | "findall", [s, p] =>
+    match s.ints?, famIdx p with
+    | some s, some k =>
+      let p := Spec.C13.pred k
+      let got : Option (List (Int × Int)) := match l.res with | [r] => pairs? r | _ => none
+      finish l { model := [.list ((Model.C13.FindAll s p).map fun e => .list [.int e.1, .int e.2])]
+                 ok := got.map fun r => check (Spec.C13.FindAll p s r)
+                 clause := "findall:exactly-the-matching-pairs"
+                 nontrivial := countP p s ≥ 1 && countP p s < s.length }
+    | _, _ => badLine
+  | "some", [s, p] =>
+    match s.ints?, famIdx p with
+    | some s, some k =>
+      let p := Spec.C13.pred k
+      finish l { model := [Val.ofBool (Model.C13.Some p s)], ok := (boolRes? l.res).map fun r => check (Spec.C13.Some p s r)
+                 clause := "some:exists", nontrivial := s.length ≥ 2 }
+    | _, _ => badLine
+  | "every", [s, p] =>
+    match s.ints?, famIdx p with
+    | some s, some k =>
+      let p := Spec.C13.pred k
+      finish l { model := [Val.ofBool (Model.C13.Every p s)], ok := (boolRes? l.res).map fun r => check (Spec.C13.Every p s r)
+                 clause := "every:forall", nontrivial := s.length ≥ 2 }
+    | _, _ => badLine
+  | "findmin", [s] =>
+    match s.ints? with
+    | none => badLine
+    | some s =>
+      finish l { model := [.int (Model.C13.FindMin s)], ok := (intRes? l.res).map fun r => check (Spec.C13.IsMin s r)
+                 clause := "findmin:minimal-element-or-zero", nontrivial := s.length ≥ 2 && s.head? != some (Model.C13.FindMin s)
+                 tags := if s.isEmpty then ["extremum:empty"] else [] }
+  | "findmax", [s] =>
+    match s.ints? with
+    | none => badLine
+    | some s =>
+      finish l { model := [.int (Model.C13.FindMax s)], ok := (intRes? l.res).map fun r => check (Spec.C13.IsMax s r)
+                 clause := "findmax:maximal-element-or-zero", nontrivial := s.length ≥ 2 && s.head? != some (Model.C13.FindMax s)
+                 tags := if s.isEmpty then ["extremum:empty"] else [] }
+  | "min", [s] =>
+    match s.ints? with
+    | none => badLine
+    | some s =>
+      finish l { model := [.int (Model.C13.Min s)], ok := (intRes? l.res).map fun r => check (Spec.C13.IsMin s r)
+                 clause := "min:minimal-element-or-zero", nontrivial := s.length ≥ 2 && s.head? != some (Model.C13.Min s)
+                 tags := if s.isEmpty then ["extremum:empty"] else [] }
+  | "max", [s] =>
+    match s.ints? with
+    | none => badLine
+    | some s =>
+      finish l { model := [.int (Model.C13.Max s)], ok := (intRes? l.res).map fun r => check (Spec.C13.IsMax s r)
+                 clause := "max:maximal-element-or-zero", nontrivial := s.length ≥ 2 && s.head? != some (Model.C13.Max s)
+                 tags := if s.isEmpty then ["extremum:empty"] else [] }
+  | "findminby", [s, f] =>
+    match s.ints?, famIdx f with
+    | some s, some k =>
+      let f := Spec.C13.key k
+      finish l { model := [.int (Model.C13.FindMinBy s f)], ok := (intRes? l.res).map fun r => check (Spec.C13.IsMinBy f s r)
+                 clause := "findminby:first-element-with-minimal-key", nontrivial := hasTie f s
+                 tags := if hasTie f s then ["extremum:key-tie"] else [] }
+    | _, _ => badLine
+  | "findmaxby", [s, f] =>
+    match s.ints?, famIdx f with
+    | some s, some k =>
+      let f := Spec.C13.key k
+      finish l { model := [.int (Model.C13.FindMaxBy s f)], ok := (intRes? l.res).map fun r => check (Spec.C13.IsMaxBy f s r)
+                 clause := "findmaxby:first-element-with-maximal-key", nontrivial := hasTie f s
+                 tags := if hasTie f s then ["extremum:key-tie"] else [] }
+    | _, _ => badLine
+  | "findminbykey", [ms, .int k] =>
+    match maps? ms with
+    | none => badLine
+    | some ms =>
+      let m := Model.C13.FindMinByKey ms k
+      finish l { model := [.atom (if m.1 then "err" else "ok"), .int m.2]
+                 ok := (parseErrVal l.res).map fun r => check (Spec.C13.IsMinByKey ms k r.1 r.2)
+                 clause := "findminbykey:minimal-value-under-key"
+                 nontrivial := (Spec.C13.keyVals k ms).length ≥ 2
+                 tags := if m.1 then ["bykey:err"] else if (Spec.C13.keyVals k ms).length < ms.length then ["bykey:some-map-lacks-key"] else [] }
+  | "findmaxbykey", [ms, .int k] =>
+    match maps? ms with
+    | none => badLine
+    | some ms =>
+      let m := Model.C13.FindMaxByKey ms k
+      finish l { model := [.atom (if m.1 then "err" else "ok"), .int m.2]
+                 ok := (parseErrVal l.res).map fun r => check (Spec.C13.IsMaxByKey ms k r.1 r.2)
+                 clause := "findmaxbykey:maximal-value-under-key"
+                 nontrivial := (Spec.C13.keyVals k ms).length ≥ 2
+                 tags := if m.1 then ["bykey:err"] else [] }
+  | "nth", [s, .int i] =>
+    match s.ints? with
+    | none => badLine
+    | some s =>
+      let n : Int := s.length
+      finish l { model := renderOutInt (Model.C13.Nth s i), ok := (parseOutInt l.res).map fun o => check (Spec.C13.Nth s i o)
+                 clause := "nth:element-or-error-never-panic"
+                 nontrivial := (i < 0 && -n ≤ i) || i == n || i == -n - 1
+                 tags := if 0 ≤ i && i < n then ["nth:front"] else if i < 0 && -n ≤ i then ["nth:back"] else ["nth:out-of-bounds"] }
+  | "sum", [s] =>
+    match s.ints? with
+    | none => badLine
+    | some s =>
+      finish l { model := [.int (Model.C13.Sum s)], ok := (intRes? l.res).map fun r => check (Spec.C13.Sum s r)
+                 clause := "sum:arithmetic-sum", nontrivial := s.length ≥ 2 }
+  | "sumby", [s, f] =>
+    match s.ints?, famIdx f with
+    | some s, some k =>
+      let f := Spec.C13.key k
+      finish l { model := [.int (Model.C13.SumBy s f)], ok := (intRes? l.res).map fun r => check (Spec.C13.SumBy f s r)
+                 clause := "sumby:arithmetic-sum-of-images", nontrivial := s.length ≥ 2 }
+    | _, _ => badLine
+  | "mean", [s] =>
+    match s.ints? with
+    | none => badLine
+    | some s =>
+      let t := Spec.C13.total s
+      finish l { model := renderPlainInt (Model.C13.Mean s), ok := (parsePlainOutInt l.res).map fun o => check (Spec.C13.Mean s o)
+                 clause := "mean:truncated-arithmetic-mean"
+                 nontrivial := s.length ≥ 2 && t.tmod s.length != 0
+                 tags := if s.isEmpty then ["mean:empty"] else if t < 0 && t.tmod s.length != 0 then ["mean:negative-inexact"] else [] }
+  | "abs", [.int x] =>
+    finish l { model := [.int (Model.C13.Abs x)], ok := (intRes? l.res).map fun r => check (Spec.C13.Abs x r)
+               clause := "abs:non-negative-magnitude", nontrivial := x < 0 }
+  | "abs8", [.int x] =>
+    finish l { model := [.int (Model.C13.Abs8 x)], ok := (intRes? l.res).map fun r => check (Spec.C13.Abs8 x r)
+               clause := "abs8:non-negative-magnitude-unless-min", nontrivial := x < 0
+               tags := if x == -128 then ["abs8:min"] else [] }
+  | "abs8all", [] =>
+    let got : Option (List Int) := match l.res with | [r] => r.ints? | _ => none
+    finish l { model := [Val.ofInts (int8s.map Model.C13.Abs8)]
+               ok := got.map fun r => r.length == 256 && (int8s.zip r).all fun p => check (Spec.C13.Abs8 p.1 p.2)
+               clause := "abs8:non-negative-magnitude-unless-min", nontrivial := true, tags := ["int8:exhaustive"] }
+  | "clamp", [.int x, .int lo, .int hi] =>
+    finish l { model := [.int (Model.C13.Clamp x lo hi)], ok := (intRes? l.res).map fun r => check (Spec.C13.Clamp x lo hi r)
+               clause := "clamp:within-bounds-and-nearest", nontrivial := lo ≤ hi && (x < lo || hi < x)
+               tags := if lo > hi then ["clamp:lo>hi"] else [] }
+  | "clamp8", [.int x, .int lo, .int hi] =>
+    finish l { model := [.int (Model.C13.Clamp x lo hi)], ok := (intRes? l.res).map fun r => check (Spec.C13.Clamp x lo hi r)
+               clause := "clamp8:within-bounds-and-nearest", nontrivial := lo ≤ hi && (x < lo || hi < x) }
+  | "clamp8row", [.int x, .int lo] =>
+    let got : Option (List Int) := match l.res with | [r] => r.ints? | _ => none
+    finish l { model := [Val.ofInts (int8s.map fun hi => Model.C13.Clamp x lo hi)]
+               ok := got.map fun r => r.length == 256 && (int8s.zip r).all fun p => check (Spec.C13.Clamp x lo p.1 p.2)
+               clause := "clamp8:within-bounds-and-nearest", nontrivial := true, tags := ["int8:exhaustive"] }
+  | "inrange", [.int x, .int lo, .int hi] =>
+    finish l { model := [Val.ofBool (Model.C13.InRange x lo hi)], ok := (boolRes? l.res).map fun r => check (Spec.C13.InRange x lo hi r)
+               clause := "inrange:lo<=x<=hi", nontrivial := lo ≤ hi }
+  | "inrange8", [.int x, .int lo, .int hi] =>
+    finish l { model := [Val.ofBool (Model.C13.InRange x lo hi)], ok := (boolRes? l.res).map fun r => check (Spec.C13.InRange x lo hi r)
+               clause := "inrange8:lo<=x<=hi", nontrivial := lo ≤ hi }
+  | "inrange8row", [.int x, .int lo] =>
+    let got : Option (List Int) := match l.res with | [r] => r.ints? | _ => none
+    finish l { model := [Val.ofInts (int8s.map fun hi => if Model.C13.InRange x lo hi then 1 else 0)]
+               ok := got.map fun r => r.length == 256 && (int8s.zip r).all fun p => check (Spec.C13.InRange x lo p.1 (p.2 != 0))
+               clause := "inrange8:lo<=x<=hi", nontrivial := true }
+  | "compare", [.int a, .int b, c] =>
+    match famIdx c with
+    | none => badLine
+    | some k =>
+      let c := Spec.C13.comp k
+      finish l { model := [.int (Model.C13.Compare a b c)], ok := (intRes? l.res).map fun r => check (Spec.C13.Compare c a b r)
+                 clause := "compare:reflects-comparator", nontrivial := a != b }
+  | "less", [.int a, .int b] =>
+    finish l { model := [Val.ofBool (Model.C13.Less a b)], ok := (boolRes? l.res).map fun r => check (Spec.C13.Less a b r)
+               clause := "less:a<b", nontrivial := a != b }
+  | "equal", [.int a, .int b] =>
+    finish l { model := [Val.ofBool (Model.C13.Equal a b)], ok := (boolRes? l.res).map fun r => check (Spec.C13.Equal a b r)
+               clause := "equal:a=b", nontrivial := true }
+  | "range", [a] =>
+    match a.ints? with
+    | none => badLine
+    | some a =>
+      let m := Model.C13.Range a
+      finish l { model := renderOutList m, ok := (parseOutList l.res).map fun o => check (Spec.C13.Range false a o)
+                 clause := "range:maximal-progression-or-error"
+                 nontrivial := match m with | .ok r => r.length ≥ 2 | .err => true | _ => false
+                 tags := match m with
+                   | .ok [] => ["range:empty"]
+                   | .ok (x :: y :: _) => [if x < y then "range:ascending" else "range:descending"]
+                   | .ok _ => ["range:single"]
+                   | .err => ["range:err"]
+                   | _ => ["range:hang-or-panic"] }
+  | "rangeright", [a] =>
+    match a.ints? with
+    | none => badLine
+    | some a =>
+      let m := Model.C13.RangeRight a
+      finish l { model := renderOutList m, ok := (parseOutList l.res).map fun o => check (Spec.C13.Range true a o)
+                 clause := "rangeright:reverse-of-range"
+                 nontrivial := match m with | .ok r => r.length ≥ 2 | .err => true | _ => false }
+  | _, _ => badLine
+
+/-- `str <op> …`: the same call made on the STRING instantiation of the generic function; the harness
+maps the ints 0..10 to byte-wise increasing strings (0 ↦ "", the zero value) and translates results
+back, so the line is judged exactly like the int call (order isomorphism). -/
+def step (_ : Unit) (l : Line) : Step Unit :=
+  match l.op, l.args with
+  | "str", .atom op :: args =>
+    let r := stepCore { l with op := op, args := args }
+    { r with tags := "string-instantiation" :: r.tags.map (fun t => if t == op then "str:" ++ op else t) }
+  | _, _ => stepCore l
 
 def kind : Kind where
   σ := Unit
   init := fun _ => some ()
-  step := fun st l => { st := st, bad := some s!"C13: kind not implemented ({l.op})" }
+  step := step
 
 end GoguVerif.Kinds.C13
